@@ -127,9 +127,21 @@ class ScenarioRunner:
         """Invariant at a hook (C04): at the moment an object file is unlinked or renamed away from its
         permanent address, no non-empty cid reference list may exist for it. Evaluated immediately before the
         operation executes, i.e. on the state the removing thread acts on."""
+        root = self._root
+        # staging discipline (C09): a file in a tmp directory belongs to the call that created it until it is
+        # renamed away or removed; a second thread opening the same staging file for writing would publish a mix
+        w = getattr(S._cur, "worker", None)
+        me = w.idx if w is not None else None
+        if op.kind in ("create", "wopen") and probe.is_private_tmp(root, op.path):
+            owner = self._tmp_owner.get(op.path)
+            if owner is not None and owner != me:
+                self._removal_findings.append(("staging-file-shared-between-calls",
+                                               {"path": op.rel(root), "first_thread": owner, "second_thread": me}))
+            self._tmp_owner.setdefault(op.path, me)
+        elif op.kind in ("rename", "remove") and op.path in self._tmp_owner:
+            self._tmp_owner.pop(op.path, None)
         if op.kind not in ("remove", "rename"):
             return
-        root = self._root
         src = op.path
         if not src or not src.startswith(root + os.sep):
             return
@@ -218,6 +230,7 @@ class ScenarioRunner:
 
         observer = self.observer_factory(self, store) if self.observer_factory else None
         self._removal_findings = []
+        self._tmp_owner = {}
         sch = S.Scheduler([make(i) for i in idxs], chooser, self.rundir, is_yield_op=self.is_yield_op,
                           observer=observer, pre_hook=self.removal_monitor)
         holder["s"] = sch
